@@ -205,6 +205,26 @@ func rulesC04(e *Engine, r *Report) {
 	e.shareRule(r, "C10", "R10.3", "R04.7", "the predecessor the sender announces for a re-queued file is the one it announced before: a resumed / re-queued file (sts.Recovered) answers with its OWN stored predecessor - the type test comes first and wins over the live queue neighbour (which may be a later file of the group that transitively waits for this one: a cycle the receiver can only break by giving up the order)")
 	// ---------------------------------------------------------------- R04.8
 	e.shareRule(r, "C10", "R10.6", "R04.8", "after a sender restart the chain of announced predecessors continues through the files the receiver already holds: skipping such a placeholder in Pop unlinks the node BEFORE it, never the placeholder itself, so the first real file behind it still announces it")
+	// ---------------------------------------------------------------- R04.9
+	r.Rule("R04.9", "the predecessor a re-sent file announces is the one its current version was emitted with: in the tracker every iteration over a transmitted part that gives the progress entry a version (stores its hash - a new entry, or an entry re-based on a rewritten file) also stores the part's predecessor into it; the entry is what finish() hands to the retry stage, which re-sends `with the prev intact`")
+	if fn := needFn(e, r, "R04.9", "client.(*Broker).startTrack"); fn != nil {
+		hs := e.findInstrs(fn, "store(§.hash = invoke(sts.Binned.GetFileHash)(§))", false)
+		r.Min("R04.9", "stores of a version's hash into a progress entry", len(hs), 2)
+		if len(hs) > 0 {
+			var backs []ssa.Instruction
+			for _, h := range hs {
+				_, bs := innermostLoop(h)
+				backs = append(backs, bs...)
+			}
+			cls := labeler(
+				I("store(§.hash = invoke(sts.Binned.GetFileHash)(§))", "versioned"),
+				I("store(§.prev = invoke(sts.Binned.GetPrev)(§))", "prevSet"),
+			)
+			res := e.Flow(fn, FlowOpts{Classify: cls, Target: anyOf(backs)})
+			e.judge(r, "R04.9", "client.(*Broker).startTrack: an entry that takes a version's hash takes its predecessor too", fn, res,
+				func(l LabelSet) bool { return !l.Has("versioned") || l.Has("prevSet") }, "store of <entry>.prev = part.GetPrev() in the same iteration")
+		}
+	}
 }
 
 // allocsOf returns the composite-literal allocations of type *T in fn.
